@@ -64,6 +64,8 @@ def run(rep, tier):
         rep.call(validators.crop_f64, rep, prog, "C03.crop-validate")
         rep.call(validators.crop_u32, rep, prog, "C03.crop-validate-u32")
         rep.call(validators.constructors_validate, rep, prog, "C03.invariants")
+        # the dynamic images unwrap the typed view of a buffer their constructor accepted
+        rep.call(validators.align_reject, rep, prog, "C03.align-reject")
         rep.call(validators.unchecked_crop, rep, prog, "C03.unchecked-crop")
         rep.call(index_rules.unchecked_sites, rep, prog, "C03.unchecked-sites")
         rep.call(index_rules.nearest_index, rep, prog, "C03.index-nearest")
